@@ -162,6 +162,14 @@ void hot_maps(quill::LoggerImpl<FO>* l, std::map<std::string, int> const& msi, s
   LOG_INFO(l, "{} {} {} {} {}", msi, umss, miv, mm, umm);
 }
 
+// ordered containers with a user comparator: the backend must rebuild them in the same order
+template <typename FO>
+void hot_ordered(quill::LoggerImpl<FO>* l, std::set<std::string, std::greater<>> const& sg, std::multiset<int, std::greater<int>> const& mg,
+                 std::map<std::string, int, std::greater<>> const& mapg, std::multimap<int, std::string, std::greater<int>> const& mmg)
+{
+  LOG_INFO(l, "{} {} {} {}", sg, mg, mapg, mmg);
+}
+
 template <typename FO>
 void hot_wrappers(quill::LoggerImpl<FO>* l, std::optional<std::string> const& os, std::optional<int> const& oi,
                   std::pair<std::string, int> const& psi, std::tuple<int, std::string, double, char const*> const& t,
@@ -211,6 +219,8 @@ void cold_preallocate()
   template void hot_maps<FO>(quill::LoggerImpl<FO>*, std::map<std::string, int> const&, std::unordered_map<std::string, std::string> const&,  \
                              std::map<int, std::vector<std::string>> const&, std::multimap<std::string, int> const&,                          \
                              std::unordered_multimap<int, std::string> const&);                                                               \
+  template void hot_ordered<FO>(quill::LoggerImpl<FO>*, std::set<std::string, std::greater<>> const&, std::multiset<int, std::greater<int>> const&,      \
+                                std::map<std::string, int, std::greater<>> const&, std::multimap<int, std::string, std::greater<int>> const&);          \
   template void hot_wrappers<FO>(quill::LoggerImpl<FO>*, std::optional<std::string> const&, std::optional<int> const&,                        \
                                  std::pair<std::string, int> const&, std::tuple<int, std::string, double, char const*> const&,                \
                                  std::pair<std::optional<std::string>, std::vector<int>> const&, std::chrono::seconds,                        \
